@@ -137,6 +137,52 @@ TRUSTED_BASE = [
 ]
 
 
+def ddmin(parts, fails, budget=400):
+    """delta debugging over a list of parts; `fails(list)` says whether the property still fails"""
+    n = 2
+    calls = 0
+    while len(parts) >= 2 and calls < budget:
+        chunk = max(1, len(parts) // n)
+        reduced = False
+        for i in range(0, len(parts), chunk):
+            cand = parts[:i] + parts[i + chunk:]
+            calls += 1
+            if cand and fails(cand):
+                parts = cand
+                n = max(n - 1, 2)
+                reduced = True
+                break
+            if calls >= budget:
+                break
+        if not reduced:
+            if chunk == 1:
+                break
+            n = min(len(parts), n * 2)
+    return parts
+
+
+def shrink_violation(mod, ctx, v):
+    """shrink a failing script token-wise (parts separated by blanks) when the plugin can re-judge an input"""
+    if not hasattr(mod, "still_fails") or "input_hex" not in v:
+        return v
+    try:
+        t = bytes.fromhex(v["input_hex"])
+        parts = t.split(b" ")
+        if len(parts) < 3 or not mod.still_fails(ctx, t):
+            return v
+        small = ddmin(parts, lambda ps: mod.still_fails(ctx, b" ".join(ps)))
+        st = b" ".join(small)
+        if len(st) < len(t):
+            v = dict(v)
+            v["original_input_hex"] = v["input_hex"]
+            v["input_hex"] = st.hex()
+            v["input"] = st.decode("latin-1")
+            v["shrunk"] = True
+    except Exception:  # noqa
+        traceback.print_exc()
+    return v
+
+
 def main(argv):
     import argparse
     ap = argparse.ArgumentParser()
@@ -204,6 +250,7 @@ def main(argv):
     rc = 0
     out_lines = []
     if violations:
+        violations[0] = shrink_violation(mod, ctx, violations[0])
         v = violations[0]
         path = write_replay(pid, {"property": pid, "kind": "failing-input", "violation": v, "all": violations[:10], "broken": broken})
         out_lines.append("VIOLATION property=%s replay=%s" % (pid, path))
